@@ -213,6 +213,10 @@ pub fn traffic<F: Fl, const TOPO: u8, const OUTER: usize, const L0: u8, const L1
         probe_id0: 9,
     });
     if c.teardown {
+        if TOPO == 6 {
+            // rx1 was dropped by actor 2 (its slot still holds the stale bytes, see world::op_drop_rx)
+            std::mem::forget(w.rx[1].take());
+        }
         teardown::<F>(&mut w);
     } else {
         std::mem::forget(w);
